@@ -21,6 +21,8 @@ RULE = ("one evaluation = one seeded run: a client seeds the shared RNG, foreign
 def gen_trace(seed, world, tier):
     R = sub_rng(seed, "C19")
     n = R.randint(1, 6 if tier == "quick" else 8)
+    if R.random() < 0.03:
+        n = R.randint(12, 24)          # a few mid-size matrices
     fam = R.choice(["herm_pos", "herm_neg", "herm_mixed", "herm_mixed", "general", "general_int", "general_zero_col"])
     scale = R.choice([0, 0, 0, 0, -6, 6, -3, 3, -12, 12, -9, -17, 17, -15])
     # reducible Hermitian matrices (diagonal / block diagonal, dominant eigenvector away from
